@@ -1,5 +1,5 @@
 #!/bin/sh
 cd /verif || exit 2
-./scripts/sched_build.sh || exit 2
+./scripts/sched_build.sh C08 || exit 2
 export GORACE="exitcode=0 history_size=2"
-exec .build/owcheck-sched C08 "$@"
+exec .build/owcheck-sched-C08 C08 "$@"
